@@ -20,6 +20,7 @@ pub fn check(tier: Tier) -> Check {
     }
     parts.push(Part::new("C11/hook-validate", json!({}), 0, 120));
     Check {
+        also_rel: false,
         property: "C11",
         level: "model_checking",
         rule: "(a) 12 deterministic runs of 70 000 identifier-consuming operations through the real handle/context (QoS 1 only, QoS 2 only, subscribe only, round robin) with 0, 1 or 3 acknowledgements outstanding; (b) all sequences of operation starts and acknowledgements up to the stated depth from counters preset (hook) to 65533/65534/65535 and subscription identifiers preset to 1/127/268435454; (c) differential validation of the hook against an honest run to the same point; oracle: every identifier on the wire is non-zero (strict decoder), differs from every outstanding one, subscription identifiers are never reused, no panic; non-trivial = the packet identifier counter wrapped".into(),
